@@ -268,6 +268,17 @@ struct Run {
 			v &= uv::mask(nbits - 1);
 			return v | (g.below(4) == 0 ? 1ull << (nbits - 1) : 0);
 		}
+		if (g.below(10) == 0) {
+			// the complement pattern: the inf (1…10) or NaN (1…1) encoding with ONE limb replaced — the multi-limb
+			// isinf / isnan / ismaxpos tests compare limb by limb and are only told apart by such near-special encodings
+			constexpr unsigned bpb = 8 * sizeof(bt);
+			constexpr unsigned nl = (nbits + bpb - 1) / bpb;
+			ull v = uv::mask(nbits - 1) & ~(g.coin() ? 1ull : 0ull);
+			unsigned k = (unsigned)g.below(nl);
+			if (bpb * k < 64) { ull m = uv::mask(bpb) << (bpb * k); v = (v & ~m) | ((g.next() << (bpb * k)) & m); }
+			v &= uv::mask(nbits - 1);
+			return v | (g.coin() ? 1ull << (nbits - 1) : 0);
+		}
 		return (g.coin() ? 1ull << (nbits - 1) : 0) | (expfield(g) << fbits) | fracfield(g);
 	}
 	static void random(ull count) {
@@ -323,7 +334,8 @@ template<unsigned nbits, unsigned es, typename bt, bool sub, bool sup, bool sat>
 #define LARGE(X) X(16,5,uint16_t,1,0,0) X(16,8,uint16_t,1,0,0) X(32,8,uint32_t,1,0,0) X(64,11,uint32_t,1,0,0) \
 	X(24,5,uint8_t,1,1,0) X(24,5,uint32_t,0,0,1) X(24,5,uint16_t,1,0,0) X(40,8,uint8_t,1,1,1) X(40,8,uint32_t,1,0,0) X(40,8,uint16_t,0,1,0) \
 	X(16,5,uint8_t,0,1,1) X(16,5,uint32_t,1,1,0) X(12,4,uint16_t,1,0,1) X(32,8,uint8_t,0,0,0) \
-	X(32,8,uint8_t,1,0,0) X(26,6,uint8_t,1,1,0) X(64,11,uint16_t,1,0,0) X(48,8,uint16_t,1,0,0)
+	X(32,8,uint8_t,1,0,0) X(26,6,uint8_t,1,1,0) X(64,11,uint16_t,1,0,0) X(48,8,uint16_t,1,0,0) \
+	X(40,8,uint8_t,1,0,0) X(40,8,uint16_t,1,0,0) X(33,8,uint8_t,1,0,0) X(33,8,uint16_t,1,0,0) X(33,8,uint32_t,1,0,0) X(32,8,uint16_t,1,0,0)
 
 #if UV_PART == 8
 #define CONFIGS(X) SMALL(X, uint8_t)
